@@ -124,16 +124,16 @@ def mkSys (m0 : GMap) (progs : List (List Act)) : Sys :=
 /-! ### lock discipline of a program (decidable; evaluated on programs derived from the source) -/
 
 inductive Held where
-  | none | r | w
+  | free | r | w
   deriving Repr, DecidableEq
 
 /-- the mode held after an action, `none` if the action is not allowed in mode `h`: every access sits
     inside a section of the right mode and sections are properly bracketed -/
 def Held.after : Held → Act → Option Held
-  | .none, .lock => some .w
-  | .w, .unlock => some .none
-  | .none, .rlock => some .r
-  | .r, .runlock => some .none
+  | .free, .lock => some .w
+  | .w, .unlock => some .free
+  | .free, .rlock => some .r
+  | .r, .runlock => some .free
   | .w, .put _ _ => some .w
   | .w, .del _ => some .w
   | .r, .size => some .r
@@ -141,16 +141,16 @@ def Held.after : Held → Act → Option Held
   | .r, .range => some .r
   | .w, .range => some .w
   | h, .use => some h
-  | _, _ => none
+  | _, _ => Option.none
 
 /-- a program is well locked from mode `h`: every action is allowed and nothing is held at the end -/
 def wl : Held → List Act → Bool
-  | h, [] => h == .none
+  | h, [] => h == .free
   | h, a :: rest => match h.after a with
     | some h' => wl h' rest
     | none => false
 
-def wellLocked (p : List Act) : Bool := wl .none p
+def wellLocked (p : List Act) : Bool := wl .free p
 
 /-- a listing reader that really copies under the lock: well locked and it contains a `range` -/
 def copiesUnderLock (p : List Act) : Bool := wellLocked p && p.contains .range
